@@ -5,5 +5,5 @@ Local Open Scope string_scope.
 
 Definition imports_resolve_before_mutation : bool := true.
 Definition imports_error_wrapped : bool := true.
-Definition imports_sorted_before_names : bool := false.
+Definition imports_sorted_before_names : bool := true.
 Definition restorefile_updates_imports_first : bool := true.
